@@ -213,6 +213,15 @@ def run(ctx):
         tcs = rh.calls("re:^tokio::time::timeout::timeout$")
         ok = bool(tcs) and "healthcheck_timeout" in fields_of(rh, tcs[0].args[0], taint=True) and any(o.kind == "call" and o.call.name == "pgcat::server::Server::query" for o in origins(rh, tcs[0].args[1]))
         r6.check(ok, "healthcheck-timeout", "the health-check query runs under timeout(settings.healthcheck_timeout)", "the health check is not bounded by healthcheck_timeout")
+        # ... and by nothing else: a healthy candidate gets the whole allowance, whatever time earlier candidates of the same checkout took
+        # (round 6: `healthcheck_timeout - start.elapsed()` gave the candidate after a dead one a timeout of 0 and banned it)
+        if tcs:
+            os6 = origins(rh, tcs[0].args[0], taint=True)
+            other = sorted({o.call.name.split("::")[-1] for o in os6 if o.kind == "call" and not re.search(r"Duration::from_(millis|secs|micros)$", o.call.name)})
+            arith = sorted({o.what for o in os6 if o.kind == "bin"})
+            pars = sorted({o.what for o in os6 if o.kind == "param" and o.what != 1})
+            r6.check(not other and not arith and not pars, "healthcheck-timeout-is-the-configured-one", "the health check's allowance is Duration::from_millis(settings.healthcheck_timeout), nothing subtracted from it",
+                     "the health check's allowance also depends on %s: a healthy replica tried after a slow or dead one can be given no time at all, fail its check and be banned - the transaction is refused although a usable server exists" % (other + arith + ["parameter %d" % p_ for p_ in pars]), tcs[0].where())
     rs = ctx.body("pgcat::client::Client::receive_server_message::{closure#0}", r6)
     if rs:
         tcs = rs.calls("re:^tokio::time::timeout::timeout$")
